@@ -52,7 +52,13 @@ def gen_setup(rng, nmax=40, allow_metric=True):
     if how == 'manual':
         # a range that is an occurring distance half of the time (boundary of the neighbourhood)
         ud = sorted(set(float(x) for x in pdist(c, metric, **mkw)))
-        rngv = rng.choice(ud[len(ud) // 4: 3 * len(ud) // 4 + 1]) if rng.random() < 0.5 else round(rng.uniform(0.25, 0.8) * dmax * 4) / 4.0
+        if metric == 'euclidean':
+            # "range equal to an occurring distance" only for exactly representable distances: the truncated (KD-tree) path has its
+            # own arithmetic and may place an irrational distance one ulp beyond the same float (rounding boundary, as in C11)
+            from fractions import Fraction
+            exact_sq = {gen.exact_dist(c[a_], c[b_], 'euclidean') for a_ in range(len(c)) for b_ in range(a_ + 1, len(c))}
+            ud = [x for x in ud if Fraction(x) ** 2 in exact_sq] or ud[:0]
+        rngv = rng.choice(ud[len(ud) // 4: 3 * len(ud) // 4 + 1]) if (rng.random() < 0.5 and ud) else round(rng.uniform(0.25, 0.8) * dmax * 4) / 4.0
         vk = dict(fit_method='manual', fit_range=float(rngv), fit_sill=float(rng.choice([1.0, 4.0, 10.0])))
         if nugget:
             vk['fit_nugget'] = nugget
@@ -145,6 +151,16 @@ def brute_force(V, setup, target, coords=None, values=None):
     mkw = setup.get('mkw') or {}
     d = cdist(np.array([target], float), c, setup['metric'], **mkw)[0]
     W = np.where(d <= rng_)[0]
+    if setup.get('sparse') and setup['metric'] == 'euclidean':
+        # a neighbour exactly at the range whose distance is irrational: the KD-tree of the truncated path has its own arithmetic
+        # and may place it one ulp beyond the same float (a rounding-boundary case, as in C11)
+        import math
+        from fractions import Fraction
+        for j_ in np.where(np.abs(d - rng_) <= 1e-12 * max(1.0, rng_))[0]:
+            ex_ = gen.exact_dist(np.array(target, float), c[j_], 'euclidean')
+            rn_, rd_ = math.isqrt(ex_.numerator), math.isqrt(ex_.denominator)
+            if not (rn_ * rn_ == ex_.numerator and rd_ * rd_ == ex_.denominator):
+                return None, None, 'tie'
     if len(W) < setup['min_points']:
         return float('nan'), float('nan'), 'nan'
     N = setup['max_points']
